@@ -228,6 +228,7 @@ type c15In struct {
 	val    string
 	failed bool // a Set that returned an error: it may have taken effect or not
 }
+
 // c15FailedSetsApply selects the reading of failed Sets for the current model pass.
 var c15FailedSetsApply bool
 
